@@ -305,7 +305,7 @@ public:
     }
 
     void rebuild(){
-        std::vector<std::array<RealType, NbDataValuesPerParticle>> data(nbParticles);
+        std::vector<std::array<DataType, NbDataValuesPerParticle>> data(nbParticles);
         std::vector<std::array<RhsType, NbRhsValuesPerParticle>> rhs(nbParticles);
 
         applyToAllLeaves([&data, &rhs](auto&& leafHeader, const long int* particleIndexes,
